@@ -253,9 +253,60 @@ let op_rule (args : str list) : str list =
        | _ -> [ "dup" ])
   | _ -> ["bad-args"]
 
+(* expressions: "parse <hex text>" -> S-expression of the model's tree + number of tokens left;
+   "render <S-expression>" -> the rendered tokens as kind:texthex separated by blanks *)
+let str_of_text (t : text) : str = S.concat "" (List.map (fun c -> let i = int_of_n c in if i < 128 then S.make 1 (Char.chr i) else Printf.sprintf "\\u%x" i) t)
+let binop_name = function BOr -> "or" | BXor -> "xor" | BAnd -> "and" | BEq -> "eq" | BNe -> "ne" | BLt -> "lt" | BGt -> "gt"
+  | BLe -> "lteq" | BGe -> "gteq" | BAdd -> "add" | BSub -> "sub" | BMul -> "mul" | BDiv -> "div" | BMod -> "mod" | BPow -> "pow"
+let unop_name = function UNeg -> "neg" | UNot -> "not"
+let rec sexp (e : (binop, unop, leaf) expr) : str =
+  match e with
+  | EAtom (LInt d) -> "i:" ^ str_of_text d
+  | EAtom (LName n) -> "n:" ^ S.lowercase_ascii (str_of_text n)
+  | EBin (o, l, r) -> "(" ^ binop_name o ^ " " ^ sexp l ^ " " ^ sexp r ^ ")"
+  | EUn (o, x) -> "(" ^ unop_name o ^ " " ^ sexp x ^ ")"
+let text_of_str (s : str) : text = List.init (S.length s) (fun i -> n_of_int (Char.code s.[i]))
+(* S-expression reader for trees built by the harness *)
+let parse_sexp (s : str) : (binop, unop, leaf) expr =
+  let n = S.length s in
+  let pos = ref 0 in
+  let skipws () = while !pos < n && s.[!pos] = ' ' do incr pos done in
+  let word () = let j = ref !pos in while !j < n && s.[!j] <> ' ' && s.[!j] <> ')' && s.[!j] <> '(' do incr j done;
+    let w = S.sub s !pos (!j - !pos) in pos := !j; w in
+  let rec go () =
+    skipws ();
+    if s.[!pos] = '(' then begin
+      incr pos; let h = word () in
+      let a = go () in
+      skipws ();
+      if s.[!pos] = ')' then (incr pos;
+        EUn ((match h with "neg" -> UNeg | _ -> UNot), a))
+      else begin
+        let b = go () in skipws (); incr pos;
+        let o = (match h with "or" -> BOr | "xor" -> BXor | "and" -> BAnd | "eq" -> BEq | "ne" -> BNe | "lt" -> BLt | "gt" -> BGt
+                 | "lteq" -> BLe | "gteq" -> BGe | "add" -> BAdd | "sub" -> BSub | "mul" -> BMul | "div" -> BDiv | "mod" -> BMod | _ -> BPow) in
+        EBin (o, a, b) end
+    end else begin
+      let w = word () in
+      let body = S.sub w 2 (S.length w - 2) in
+      if w.[0] = 'i' then EAtom (LInt (text_of_str body)) else EAtom (LName (text_of_str body))
+    end in
+  go ()
+let op_expr (args : str list) : str list =
+  match args with
+  | ["parse"; h] ->
+      (match parse_expr_text (text_of_hex h) with
+       | Ok (e, rest) -> [ "ok"; sexp e; string_of_int (List.length rest) ]
+       | Fail -> ["fail"] | Panic -> ["panic"] | OutOfFuel -> ["out-of-fuel"])
+  | ["render"; sx] ->
+      let toks = render_expr (parse_sexp sx) in
+      [ S.concat " " (List.map (fun (t : token) -> kind_name t.t_kind ^ ":" ^ str_of_text t.t_text)
+                        (List.filter (fun (t : token) -> kind_name t.t_kind <> "Whitespace") toks)) ]
+  | _ -> ["bad-args"]
+
 let ops : (str * (str list -> str list)) list ref =
   ref [ ("lex", op_lex); ("semtok", op_semtok); ("decode", op_decode); ("lit", op_lit); ("cycle", op_cycle);
-        ("lsp", op_lsp); ("cli", op_cli); ("rule", op_rule) ]
+        ("lsp", op_lsp); ("cli", op_cli); ("rule", op_rule); ("expr", op_expr) ]
 
 
 let () =
